@@ -14,6 +14,8 @@ using DFCVec = amc::FixedCapacityVector<int, 4>;
 using DFSet = amc::FlatSet<int>;
 using DSSet = amc::SmallSet<int, 4>;
 using DSSetF = amc::SmallSet<int, 4, std::less<int>, amc::allocator<int>, amc::FlatSet<int>>;
+using DFSetD = amc::FlatSet<int, DualLess>;  // stateful comparator with a const and a non-const call operator
+using DSSetFD = amc::SmallSet<int, 4, DualLess, amc::allocator<int>, DFSetD>;
 
 #define C20_COMMON_READERS(C)                   \
   template uint64_t op_iter<C>(const Shared &);  \
@@ -48,5 +50,7 @@ C20_VECTOR_READERS(DFCVec)
 C20_SET_READERS(DFSet)
 C20_SMALLSET_READERS(DSSet)
 C20_SMALLSET_READERS(DSSetF)
+C20_SET_READERS(DFSetD)
+C20_SMALLSET_READERS(DSSetFD)
 
 }  // namespace c20
